@@ -458,3 +458,307 @@ Proof.
   destruct (gen_package_ok E P [] [] HP Hnd) as (S & G & S1 & C & L); [intros k []|split; constructor|].
   exists S. cbn [app] in *. unfold gen_idl. rewrite G. auto.
 Qed.
+
+(* ================= Part 3: Kleene over lines and blocks ================= *)
+Local Open Scope string_scope.
+
+(* a block of text that ends in a new line is parsed up to that new line; the next block starts
+   behind it *)
+Lemma kleene_lines (p : iparser) (okrest : string -> Prop) (items : list (string * inode)) (tail : string) :
+  (forall s, fst (p (nl ++ s)) = fst (p s)) ->
+  (forall t nd, In (t, nd) items -> forall rest, okrest rest -> fst (p (t ++ rest)) = Ok nd (nl ++ rest)) ->
+  (forall t nd, In (t, nd) items -> (1 <= String.length t)%nat /\ forall r, okrest (t ++ r)) ->
+  okrest tail -> fst (p tail) = Fail ->
+  forall n, (List.length items < n)%nat ->
+  fst (kleene_loop n p (nl ++ String.concat "" (map fst items) ++ tail)) = Ok (map snd items) (nl ++ tail).
+Proof.
+  intros Hws. induction items as [|[t nd] items IH]; intros Hp Hlen Htail Hfail n Hn.
+  - destruct n; [cbn in Hn; lia|]. cbn [map String.concat append]. apply kleene_loop_fail. now rewrite Hws.
+  - destruct n; [cbn in Hn; lia|]. cbn [map fst snd]. rewrite sconcat_cons, sapp_assoc.
+    set (R := String.concat "" (map fst items) ++ tail).
+    assert (HR : okrest R).
+    { subst R. destruct items as [|[t2 nd2] items2]; [exact Htail|].
+      cbn [map fst]. rewrite sconcat_cons, sapp_assoc. apply (Hlen t2 nd2). right. now left. }
+    rewrite (kleene_loop_ok n p _ nd (nl ++ R)).
+    + subst R. rewrite IH; [reflexivity| | |assumption|assumption|cbn in Hn; lia].
+      * intros t' nd' Hin. apply Hp. now right.
+      * intros t' nd' Hin. apply Hlen with nd'. now right.
+    + rewrite Hws. apply Hp; [now left|exact HR].
+    + destruct (Hlen t nd (or_introl eq_refl)) as [Hl _]. unfold nl. cbn [append String.length]. rewrite slen_app. lia.
+Qed.
+
+Lemma concat_len_ge (l : list string) : (forall t, In t l -> (1 <= String.length t)%nat) ->
+  (List.length l <= String.length (String.concat "" l))%nat.
+Proof.
+  induction l as [|t l IH]; intro H; [cbn; lia|]. rewrite sconcat_cons, slen_app.
+  pose proof (H t (or_introl eq_refl)). specialize (IH (fun u Hu => H u (or_intror Hu))). cbn [List.length]. lia.
+Qed.
+
+(* no comment ahead: what follows (after white space) does not begin with "//" *)
+Definition no_comment (s : string) : Prop := strip_prefix "//" (skip_ws s) = None.
+
+Lemma icomments_none s : no_comment s -> fst (icomments s) = Ok (NVal (VStr "")) s.
+Proof.
+  intro H. unfold icomments. rewrite pand_fst.
+  rewrite (and_loop_cons_ok _ [] s NNone s).
+  - reflexivity.
+  - apply maybe_fail. rewrite pand_fst. rewrite and_loop_cons_fail; [reflexivity|].
+    unfold atom. unfold no_comment in H. now rewrite H.
+Qed.
+
+Lemma no_comment_nl s : no_comment s -> no_comment (nl ++ s).
+Proof. unfold no_comment, nl. cbn [append skip_ws]. now change (@is_ws "010") with true. Qed.
+
+(* ---------- the action lines of an interface ---------- *)
+Definition mnode (m : tmethod) : inode :=
+  NVal (VMethod (tm_name m) (tm_uid m) (ret_ity (tm_ret m)) (iparams (snd (method_members m)))).
+Definition snode_ (x : tsignal) : inode := NVal (VSignal (tg_name x) (tg_uid x) (iparams (tuple_fields 0 (tg_params x)))).
+Definition pnode_ (x : tsignal) : inode := NVal (VProp (tg_name x) (tg_uid x) (iparams (tuple_fields 0 (tg_params x)))).
+
+Lemma named_members_snd i names ts : List.length names = List.length ts -> map snd (named_members i names ts) = ts.
+Proof.
+  revert i ts; induction names as [|n names IH]; intros i [|t ts] H; cbn in *; try discriminate; [reflexivity|].
+  f_equal. apply IH. lia.
+Qed.
+
+Lemma method_members_snd m : map snd (snd (method_members m)) = tm_params m.
+Proof.
+  unfold method_members. destruct (tm_pnames m) as [names|]; [|apply tuple_fields_snd].
+  destruct (Nat.eqb (List.length names) (List.length (tm_params m))) eqn:E; [|apply tuple_fields_snd].
+  apply Nat.eqb_eq in E. now apply named_members_snd.
+Qed.
+
+Lemma method_members_sep m : is_sep (fst (method_members m)).
+Proof.
+  unfold method_members. destruct (tm_pnames m) as [names|]; [|now right].
+  destruct (Nat.eqb _ _); [now left|now right].
+Qed.
+
+Lemma params_ok_of f (l : list (string * ty)) :
+  Forall (fun p => is_iident (fst p) = true) l ->
+  Forall (fun t => idl_safe t = true /\ (idl_depth t < f)%nat) (map snd l) -> Forall (param_ok f) l.
+Proof.
+  induction l as [|p l IH]; intros H1 H2; [constructor|].
+  inversion H1; subst. cbn [map] in H2. inversion H2 as [|? ? [Ha Hb] H2']; subst.
+  constructor; [repeat split; assumption|now apply IH].
+Qed.
+
+Section Lines.
+Variable E : env.
+Variable f : nat.
+
+Definition deep_ok (t : ty) : Prop := (idl_depth t < f)%nat.
+
+Lemma types_param_ok ts : Forall (type_ok E) ts -> Forall deep_ok ts ->
+  Forall (fun t => idl_safe t = true /\ (idl_depth t < f)%nat) ts.
+Proof.
+  intros H1 H2. rewrite Forall_forall in *. intros t Hin. split; [now destruct (H1 t Hin) as (_ & ? & _)|now apply H2].
+Qed.
+
+Lemma iaction_ws s : iaction (itype f) (nl ++ s) = iaction (itype f) s.
+Proof. unfold iaction. apply por_ext. repeat constructor. Qed.
+
+Lemma method_item m rest : method_ok E m -> Forall deep_ok (tm_params m) -> (tm_ret m = TS SVoid \/ deep_ok (tm_ret m)) ->
+  fst (iaction (itype f) (method_text m ++ rest)) = Ok (mnode m) (nl ++ rest).
+Proof.
+  intros [Hts Hrt Hname Hu Hu0 Hpn] Hd Hdr. unfold iaction.
+  apply (por_cons_ok (Some nodify_first) _ _ _ (mnode m) (nl ++ rest)).
+  unfold method_text, mnode. apply method_line_parses; [assumption|assumption|apply method_members_sep| |].
+  - apply params_ok_of; [assumption|]. rewrite method_members_snd. now apply types_param_ok.
+  - destruct Hrt as [->|(_ & Hs & _)]; [now left|]. destruct Hdr as [->|Hdr]; [now left|right; now split].
+Qed.
+
+Lemma signal_item x rest : signal_ok E x -> Forall deep_ok (tg_params x) ->
+  fst (iaction (itype f) (signal_text "sig" x ++ rest)) = Ok (snode_ x) (nl ++ rest).
+Proof.
+  intros [Hts Hname Hu Hu0] Hd. unfold iaction.
+  rewrite por_cons_fail.
+  2:{ unfold imethod. rewrite pand_fst. unfold signal_text, sigprop_line, tab. rewrite !sapp_assoc. cbn [append].
+      rewrite and_loop_cons_fail; reflexivity. }
+  apply (por_cons_ok (Some nodify_first) _ _ _ (snode_ x) (nl ++ rest)).
+  unfold signal_text, snode_. apply signal_line_parses; [assumption|assumption|now right|].
+  apply params_ok_of; [apply tuple_field_names_ok|]. rewrite tuple_fields_snd. now apply types_param_ok.
+Qed.
+
+Lemma prop_item x rest : signal_ok E x -> Forall deep_ok (tg_params x) ->
+  fst (iaction (itype f) (signal_text "prop" x ++ rest)) = Ok (pnode_ x) (nl ++ rest).
+Proof.
+  intros [Hts Hname Hu Hu0] Hd. unfold iaction.
+  rewrite por_cons_fail.
+  2:{ unfold imethod. rewrite pand_fst. unfold signal_text, sigprop_line, tab. rewrite !sapp_assoc. cbn [append].
+      rewrite and_loop_cons_fail; reflexivity. }
+  rewrite por_cons_fail.
+  2:{ unfold isignal. rewrite pand_fst. unfold signal_text, sigprop_line, tab. rewrite !sapp_assoc. cbn [append].
+      rewrite and_loop_cons_fail; reflexivity. }
+  apply (por_cons_ok (Some nodify_first) _ _ _ (pnode_ x) (nl ++ rest)).
+  unfold signal_text, pnode_. apply property_line_parses; [assumption|assumption|now right|].
+  apply params_ok_of; [apply tuple_field_names_ok|]. rewrite tuple_fields_snd. now apply types_param_ok.
+Qed.
+End Lines.
+
+(* ---------- nodifyActionList keeps distinct ids as they are ---------- *)
+Lemma upsert_new {A} k (v : A) l : ~ In k (map fst l) -> upsert k v l = (l ++ [(k, v)])%list.
+Proof.
+  induction l as [|[k' v'] l IH]; cbn; intro H; [reflexivity|].
+  destruct (N.eqb_spec k k') as [->|Hn]; [exfalso; apply H; now left|].
+  rewrite IH; [reflexivity|]. intro Hin. apply H. now right.
+Qed.
+
+Definition mentry (m : tmethod) := (tm_uid m, (tm_name m, ret_ity (tm_ret m), iparams (snd (method_members m)))).
+Definition gentry (x : tsignal) := (tg_uid x, (tg_name x, iparams (tuple_fields 0 (tg_params x)))).
+
+Lemma action_list_methods ms : forall rest c M S P,
+  Forall (fun m => tm_uid m <> 0%N \/ tm_name m = "registerEvent") ms ->
+  NoDup (map fst M ++ map tm_uid ms) ->
+  action_list (map mnode ms ++ rest) c M S P = action_list rest c (M ++ map mentry ms) S P.
+Proof.
+  induction ms as [|m ms IH]; intros rest c M S P H0 Hnd; [cbn; now rewrite app_nil_r|].
+  inversion H0 as [|? ? Hm H0']; subst. cbn [map app mnode action_list].
+  assert (Hc : N.eqb (tm_uid m) 0 && negb (String.eqb (tm_name m) "registerEvent") = false).
+  { destruct Hm as [Hm| ->]; [apply N.eqb_neq in Hm; now rewrite Hm|rewrite String.eqb_refl; apply andb_false_r]. }
+  fold (mnode m). unfold mnode at 1. cbn [action_list]. rewrite Hc.
+  cbn [map] in Hnd. assert (Hnew : ~ In (tm_uid m) (map fst M)).
+  { apply NoDup_remove_2 in Hnd. intro Hin. apply Hnd. apply in_or_app. now left. }
+  rewrite upsert_new by assumption. rewrite IH.
+  - rewrite <- app_assoc. reflexivity.
+  - assumption.
+  - rewrite map_app. cbn [map fst]. rewrite <- app_assoc. exact Hnd.
+Qed.
+
+Lemma action_list_signals xs : forall rest c M S P,
+  Forall (fun x => tg_uid x <> 0%N) xs -> NoDup (map fst S ++ map tg_uid xs) ->
+  action_list (map snode_ xs ++ rest) c M S P = action_list rest c M (S ++ map gentry xs) P.
+Proof.
+  induction xs as [|x xs IH]; intros rest c M S P H0 Hnd; [cbn; now rewrite app_nil_r|].
+  inversion H0 as [|? ? Hx H0']; subst. cbn [map app snode_ action_list].
+  apply N.eqb_neq in Hx. rewrite Hx.
+  cbn [map] in Hnd. assert (Hnew : ~ In (tg_uid x) (map fst S)).
+  { apply NoDup_remove_2 in Hnd. intro Hin. apply Hnd. apply in_or_app. now left. }
+  rewrite upsert_new by assumption. fold (snode_). rewrite IH.
+  - rewrite <- app_assoc. reflexivity.
+  - assumption.
+  - rewrite map_app. cbn [map fst]. rewrite <- app_assoc. exact Hnd.
+Qed.
+
+Lemma action_list_props xs : forall c M S P,
+  Forall (fun x => tg_uid x <> 0%N) xs -> NoDup (map fst P ++ map tg_uid xs) ->
+  action_list (map pnode_ xs) c M S P = NVal (VItf "" M S (P ++ map gentry xs)).
+Proof.
+  induction xs as [|x xs IH]; intros c M S P H0 Hnd; [cbn; now rewrite app_nil_r|].
+  inversion H0 as [|? ? Hx H0']; subst. cbn [map pnode_ action_list].
+  apply N.eqb_neq in Hx. rewrite Hx.
+  cbn [map] in Hnd. assert (Hnew : ~ In (tg_uid x) (map fst P)).
+  { apply NoDup_remove_2 in Hnd. intro Hin. apply Hnd. apply in_or_app. now left. }
+  rewrite upsert_new by assumption. fold (pnode_). rewrite IH.
+  - rewrite <- app_assoc. reflexivity.
+  - assumption.
+  - rewrite map_app. cbn [map fst]. rewrite <- app_assoc. exact Hnd.
+Qed.
+
+Definition action_nodes (o : tobject) : list inode :=
+  (map mnode (to_methods o) ++ map snode_ (to_signals o) ++ map pnode_ (to_props o))%list.
+Definition itf_val (o : tobject) : ival :=
+  VItf (to_name o) (map mentry (to_methods o)) (map gentry (to_signals o)) (map gentry (to_props o)).
+
+Lemma action_list_object E o : object_ok E o ->
+  inodify_action_list (action_nodes o) = NVal (VItf "" (map mentry (to_methods o)) (map gentry (to_signals o)) (map gentry (to_props o))).
+Proof.
+  intros [_ _ Hms Hss Hps Hm Hs Hp]. unfold inodify_action_list, action_nodes.
+  rewrite action_list_methods; [|eapply Forall_impl; [|exact Hms]; intros m Hm'; apply Hm'|exact Hm].
+  rewrite action_list_signals; [|eapply Forall_impl; [|exact Hss]; intros x Hx; apply Hx|exact Hs].
+  rewrite action_list_props; [reflexivity|eapply Forall_impl; [|exact Hps]; intros x Hx; apply Hx|exact Hp].
+Qed.
+
+(* ---------- an interface block ---------- *)
+Lemma sconcat_app (l1 l2 : list string) : String.concat "" (l1 ++ l2)%list = String.concat "" l1 ++ String.concat "" l2.
+Proof.
+  induction l1 as [|x l1 IH]; [reflexivity|]. cbn [app]. now rewrite !sconcat_cons, IH, sapp_assoc.
+Qed.
+
+Definition action_items (o : tobject) : list (string * inode) :=
+  (map (fun m => (method_text m, mnode m)) (to_methods o) ++
+   map (fun x => (signal_text "sig" x, snode_ x)) (to_signals o) ++
+   map (fun x => (signal_text "prop" x, pnode_ x)) (to_props o))%list.
+
+Lemma action_items_fst o : String.concat "" (map fst (action_items o)) = methods_text o ++ signals_text o ++ props_text o.
+Proof.
+  unfold action_items, methods_text, signals_text, props_text. rewrite !map_app, !sconcat_app, !map_map. reflexivity.
+Qed.
+Lemma action_items_snd o : map snd (action_items o) = action_nodes o.
+Proof. unfold action_items, action_nodes. rewrite !map_app, !map_map. reflexivity. Qed.
+
+Definition object_deep (f : nat) (o : tobject) : Prop :=
+  Forall (fun m => Forall (deep_ok f) (tm_params m) /\ (tm_ret m = TS SVoid \/ deep_ok f (tm_ret m))) (to_methods o) /\
+  Forall (fun x => Forall (deep_ok f) (tg_params x)) (to_signals o) /\
+  Forall (fun x => Forall (deep_ok f) (tg_params x)) (to_props o).
+
+Lemma line_head_m m : exists r, method_text m = String "009" (String "f" r).
+Proof. unfold method_text, method_line, tab. eexists. cbn [append]. reflexivity. Qed.
+Lemma line_head_g kw x : (kw = "sig" \/ kw = "prop") -> exists c r, signal_text kw x = String "009" (String c r) /\ (c = "s" \/ c = "p")%char.
+Proof. intros [-> | ->]; unfold signal_text, sigprop_line, tab; eexists _, _; cbn [append]; split; try reflexivity; auto. Qed.
+
+Lemma action_item_shape o t nd : In (t, nd) (action_items o) ->
+  exists c r, t = String "009" (String c r) /\ (c = "f" \/ c = "s" \/ c = "p")%char.
+Proof.
+  unfold action_items. intro H. apply in_app_or in H as [H|H]; [|apply in_app_or in H as [H|H]];
+    apply in_map_iff in H as (x & Ex & _); inversion Ex; subst.
+  - destruct (line_head_m x) as (r & ->). eauto 6.
+  - destruct (line_head_g "sig" x (or_introl eq_refl)) as (c & r & -> & [-> | ->]); eauto 8.
+  - destruct (line_head_g "prop" x (or_intror eq_refl)) as (c & r & -> & [-> | ->]); eauto 8.
+Qed.
+
+Lemma no_comment_lines o tail : no_comment tail -> (exists x, tail = String "e" x) ->
+  no_comment (nl ++ String.concat "" (map fst (action_items o)) ++ tail).
+Proof.
+  intros Ht (x & ->). apply no_comment_nl. destruct (action_items o) as [|[t nd] items] eqn:E; [reflexivity|].
+  destruct (action_item_shape o t nd) as (c & r & -> & Hc); [rewrite E; now left|].
+  cbn [map fst]. rewrite sconcat_cons. unfold no_comment. cbn [append skip_ws]. change (@is_ws "009") with true. cbn iota.
+  destruct Hc as [-> | [-> | ->]]; reflexivity.
+Qed.
+
+Lemma itf_block E f o rest : object_ok E o -> object_deep f o -> no_comment rest ->
+  fst (ideclaration (itype f) (itf_text o ++ rest)) = Ok (NVal (itf_val o)) (nl ++ rest).
+Proof.
+  intros Ho (Dm & Ds & Dp) Hrest. pose proof Ho as [Hname _ Hms Hss Hps _ _ _].
+  set (body := String.concat "" (map fst (action_items o))).
+  assert (Etext : itf_text o = "interface " ++ to_name o ++ nl ++ body ++ "end" ++ nl).
+  { unfold itf_text, body. now rewrite action_items_fst, !sapp_assoc. }
+  rewrite Etext. rewrite !sapp_assoc. cbn [append].
+  set (tail := String "e" (String "n" (String "d" (nl ++ rest)))).
+  unfold ideclaration.
+  or_skip ltac:(unfold istructure; rewrite pand_fst; and_fail ltac:(reflexivity); reflexivity).
+  or_skip ltac:(unfold ienum; rewrite pand_fst; and_fail ltac:(reflexivity); reflexivity).
+  apply (por_cons_ok (Some nodify_first) _ _ _ (NVal (itf_val o)) (nl ++ rest)).
+  unfold iinterface. rewrite pand_fst.
+  and_step ltac:(reflexivity).
+  and_step ltac:(rewrite iident_ws; apply iident_ok; [assumption|reflexivity]).
+  assert (Hnc : no_comment (nl ++ body ++ tail)).
+  { subst body tail. apply no_comment_lines; [|eexists; reflexivity].
+    unfold no_comment. reflexivity. }
+  and_step ltac:(now apply icomments_none).
+  assert (Hk : fst (kleene (Some inodify_action_list) (iaction (itype f)) (nl ++ body ++ tail)) =
+               Ok (NVal (VItf "" (map mentry (to_methods o)) (map gentry (to_signals o)) (map gentry (to_props o)))) (nl ++ tail)).
+  { rewrite kleene_fst. subst body.
+    rewrite (kleene_lines (iaction (itype f)) (fun _ => True) (action_items o) tail).
+    - cbn [lift docb]. now rewrite action_items_snd, (action_list_object E o Ho).
+    - intro s. now rewrite iaction_ws.
+    - intros t nd Hin rest' _. unfold action_items in Hin.
+      apply in_app_or in Hin as [Hin|Hin]; [|apply in_app_or in Hin as [Hin|Hin]];
+        apply in_map_iff in Hin as (x & Ex & Hx); inversion Ex; subst.
+      + rewrite Forall_forall in Hms, Dm. destruct (Dm x Hx) as [Da Db]. apply (method_item E); [now apply Hms|exact Da|exact Db].
+      + rewrite Forall_forall in Hss, Ds. apply (signal_item E); [now apply Hss|now apply Ds].
+      + rewrite Forall_forall in Hps, Dp. apply (prop_item E); [now apply Hps|now apply Dp].
+    - intros t nd Hin. destruct (action_item_shape o t nd Hin) as (c & r & -> & _). split; [cbn; lia|trivial].
+    - exact I.
+    - reflexivity.
+    - unfold nl. cbn [append String.length]. rewrite slen_app.
+      pose proof (concat_len_ge (map fst (action_items o))) as Hl. rewrite map_length in Hl.
+      assert (forall t, In t (map fst (action_items o)) -> (1 <= String.length t)%nat).
+      { intros t Hin. apply in_map_iff in Hin as ([t' nd] & <- & Hin).
+        destruct (action_item_shape o t' nd Hin) as (c & r & -> & _). cbn. lia. }
+      specialize (Hl H). lia. }
+  and_step ltac:(exact Hk).
+  and_step ltac:(reflexivity).
+  and_step ltac:(apply icomments_none; now apply no_comment_nl).
+  reflexivity.
+Qed.
